@@ -108,6 +108,62 @@ static std::string key(const Sh& s, const char* call, const std::string& cls, co
 static bool finite3(const Vec3& v) { return std::isfinite(v[0]) && std::isfinite(v[1]) && std::isfinite(v[2]); }
 static vh::Line& v3(vh::Line& l, const Vec3& v) { return l.d(v[0]).d(v[1]).d(v[2]); }
 
+
+// ---- "mutated object" stream (after a seeded stale-cache bug in Ellipsoid::setRadii went unseen): when the class name starts
+// with "after_setter" the object is constructed with OTHER parameters, queried once (to warm any cache) and then brought to the
+// record's parameters through its setter; everything downstream (tie with the Lean model at the record's parameters, all
+// predicates) is unchanged.  Keys therefore read <Type>.<query>.after_setter....
+static Vec3 V(const std::vector<double>& v, int i);
+static bool mutatedCls(const std::string& cls) { return cls.rfind("after_setter", 0) == 0; }
+static void warmUp(const ContactGeometry& g) {
+    Vec3 q(0.31, -0.27, 0.43);
+    try { g.calcSurfaceValue(q); g.calcSurfaceGradient(q); g.calcSurfaceHessian(q); } catch (const std::exception&) {}
+    try { bool in; UnitVec3 n; g.findNearestPoint(q, in, n); } catch (const std::exception&) {}
+    try { Vec3 c; Real r; g.getBoundingSphere(c, r); } catch (const std::exception&) {}
+}
+static std::unique_ptr<ContactGeometry> mk(Kind k, const std::string& cls, double a, double b, double c) {
+    const bool mut = mutatedCls(cls); const double fa = 1.37 * a + 0.21, fb = 0.61 * b + 0.33, fc = 1.83 * c + 0.12;
+    std::unique_ptr<ContactGeometry> g;
+    switch (k) {
+    case HS:  g.reset(new ContactGeometry::HalfSpace()); break;
+    case SPH: { auto* o = new ContactGeometry::Sphere(mut ? fa : a); g.reset(o); if (mut) { warmUp(*o); o->setRadius(a); } break; }
+    case CYL: { auto* o = new ContactGeometry::Cylinder(mut ? fa : a); g.reset(o); if (mut) { warmUp(*o); o->setRadius(a); } break; }
+    case ELL: { auto* o = new ContactGeometry::Ellipsoid(mut ? Vec3(fa, fb, fc) : Vec3(a, b, c)); g.reset(o); if (mut) { warmUp(*o); o->setRadii(Vec3(a, b, c)); } break; }
+    case TOR: { auto* o = new ContactGeometry::Torus(mut ? fa : a, mut ? std::min(fb, 0.8 * fa) : b); g.reset(o); if (mut) { warmUp(*o); o->setTorusRadius(a); o->setTubeRadius(b); } break; }
+    case BOX: { auto* o = new ContactGeometry::Brick(mut ? Vec3(fa, fb, fc) : Vec3(a, b, c)); g.reset(o); if (mut) { warmUp(*o); o->setHalfLengths(Vec3(a, b, c)); } break; }
+    }
+    if (mut) vh::D(std::string("after_setter.") + Sh{k, 0, 0, 0}.name());
+    return g;
+}
+// the same query set on the object brought to B by its setter and on a fresh object constructed with B: results must be equal
+static void caseSetter(Kind k, const std::string&, const std::vector<double>& v) {
+    Sh s{k, v[0], v[1], v[2]}; Vec3 p = V(v, 3), o = V(v, 6); UnitVec3 d(V(v, 9));
+    std::string fn = std::string("p.setter.") + s.name();
+    vh::Line in = vh::I(fn); in.s("after_setter"); for (double x : v) in.d(x); in.emit(); std::puts(("O " + fn + " -").c_str());
+    std::unique_ptr<ContactGeometry> m = mk(k, "after_setter", v[0], v[1], v[2]), f = mk(k, "", v[0], v[1], v[2]);
+    typedef std::function<std::vector<double>(const ContactGeometry&)> Q;
+    auto run = [&](const Q& q, const ContactGeometry& g) { try { return q(g); } catch (const std::exception&) { return std::vector<double>{12345.678}; } };
+    auto cmp = [&](const char* name, const Q& q) { std::vector<double> x = run(q, *m), y = run(q, *f); double worst = x.size() == y.size() ? 0 : 1;
+        for (size_t i = 0; i < x.size() && i < y.size(); ++i) { if ((x[i] != x[i] && y[i] != y[i]) || x[i] == y[i]) continue; double e = std::abs(x[i] - y[i]) / std::max(1.0, std::abs(y[i])); worst = (e == e) ? std::max(worst, e) : 1; }
+        vh::P("equals_fresh", std::string(s.name()) + ".after_setter." + name + ".equals_fresh", worst, 1e-13); };
+    auto v3v = [](const Vec3& a) { return std::vector<double>{a[0], a[1], a[2]}; };
+    cmp("calcSurfaceValue", [&](const ContactGeometry& g) { return std::vector<double>{g.calcSurfaceValue(p)}; });
+    cmp("calcSurfaceGradient", [&](const ContactGeometry& g) { return v3v(g.calcSurfaceGradient(p)); });
+    cmp("calcSurfaceHessian", [&](const ContactGeometry& g) { Mat33 H = g.calcSurfaceHessian(p); std::vector<double> r; for (int i = 0; i < 3; ++i) for (int j = 0; j < 3; ++j) r.push_back(H(i, j)); return r; });
+    cmp("getImplicitFunction", [&](const ContactGeometry& g) { const Function& F = g.getImplicitFunction(); Vector x(3); for (int i = 0; i < 3; ++i) x[i] = p[i]; std::vector<double> r = {F.calcValue(x)};
+        for (int i = 0; i < 3; ++i) { Array_<int> di(1, i); r.push_back(F.calcDerivative(di, x)); for (int j = 0; j < 3; ++j) { Array_<int> dj(2); dj[0] = i; dj[1] = j; r.push_back(F.calcDerivative(dj, x)); } } return r; });
+    cmp("findNearestPoint", [&](const ContactGeometry& g) { bool in = false; UnitVec3 n(Vec3(1, 0, 0)); Vec3 q = g.findNearestPoint(p, in, n); return std::vector<double>{q[0], q[1], q[2], (double)in, n[0], n[1], n[2]}; });
+    cmp("intersectsRay", [&](const ContactGeometry& g) { Real dist = -1; UnitVec3 n(Vec3(1, 0, 0)); bool hit = g.intersectsRay(o, d, dist, n); return hit ? std::vector<double>{1, dist, n[0], n[1], n[2]} : std::vector<double>{0}; });
+    cmp("getBoundingSphere", [&](const ContactGeometry& g) { Vec3 c; Real r; g.getBoundingSphere(c, r); return std::vector<double>{c[0], c[1], c[2], r}; });
+    cmp("calcSupportPoint", [&](const ContactGeometry& g) { return v3v(g.calcSupportPoint(d)); });
+    cmp("calcSurfaceUnitNormal", [&](const ContactGeometry& g) { return v3v(Vec3(g.calcSurfaceUnitNormal(p))); });
+    cmp("calcCurvature", [&](const ContactGeometry& g) { bool in; UnitVec3 n; Vec3 q = g.findNearestPoint(p, in, n); Vec2 kk; Rotation R; g.calcCurvature(q, kk, R); return std::vector<double>{kk[0], kk[1], R.asMat33()(0, 2), R.asMat33()(1, 2), R.asMat33()(2, 2)}; });
+    cmp("calcGaussianCurvature", [&](const ContactGeometry& g) { return std::vector<double>{g.calcGaussianCurvature(p)}; });
+    cmp("projectDownhillToNearestPoint", [&](const ContactGeometry& g) { return v3v(g.projectDownhillToNearestPoint(p)); });
+    cmp("shootGeodesicInDirectionImplicitly", [&](const ContactGeometry& g) { bool in; UnitVec3 n; Vec3 q = g.findNearestPoint(p, in, n); Vec3 t = Vec3(d) - (~Vec3(d) * Vec3(n)) * Vec3(n);
+        std::vector<double> r; g.shootGeodesicInDirectionImplicitly(q, t, 0.7 * s.scale(), 1e-3 * s.scale(), 1e-10, 1e-10, 10000, [&](const ContactGeometry::GeodesicKnotPoint& kp) { r.push_back(kp.arcLength); for (int i = 0; i < 3; ++i) r.push_back(kp.point[i]); for (int i = 0; i < 3; ++i) r.push_back(kp.tangent[i]); }); return r; });
+}
+
 // -------------------------------------------------------------------------------- predicates: nearest point
 static void nearestPredicates(const Sh& s, const ContactGeometry* geo, const std::string& cls, const Vec3& p, const Vec3& pt,
                               bool haveFlag, bool inside, bool haveNormal, const Vec3& n, double surfTol) {
@@ -291,14 +347,14 @@ static void caseNearest(Kind k, const std::string& cls, const std::vector<double
     std::unique_ptr<ContactGeometry> geo;
     try {
         switch (k) {
-        case HS:  fn = "hs.nearest"; p = V(v, 0); geo.reset(new ContactGeometry::HalfSpace()); break;
-        case SPH: fn = "sph.nearest"; s.a = v[0]; p = V(v, 1); geo.reset(new ContactGeometry::Sphere(s.a)); break;
-        case CYL: fn = "cyl.nearest"; s.a = v[0]; p = V(v, 1); geo.reset(new ContactGeometry::Cylinder(s.a)); break;
-        case ELL: fn = "ell.nearest"; s.a = v[0]; s.b = v[1]; s.c = v[2]; p = V(v, 3); geo.reset(new ContactGeometry::Ellipsoid(Vec3(s.a, s.b, s.c)));
+        case HS:  fn = "hs.nearest"; p = V(v, 0); geo = mk(HS, cls, 0, 0, 0); break;
+        case SPH: fn = "sph.nearest"; s.a = v[0]; p = V(v, 1); geo = mk(SPH, cls, s.a, 0, 0); break;
+        case CYL: fn = "cyl.nearest"; s.a = v[0]; p = V(v, 1); geo = mk(CYL, cls, s.a, 0, 0); break;
+        case ELL: fn = "ell.nearest"; s.a = v[0]; s.b = v[1]; s.c = v[2]; p = V(v, 3); geo = mk(ELL, cls, s.a, s.b, s.c);
                   // accuracy of the vendored root finder: simple largest root 1e-13 (generic); coincident roots when a query
                   // coordinate is 0 (measured 3e-7) or radii coincide (measured 1.4e-6); realistic defects give >= 1e-3
                   surfTol = cls == "generic" ? 1e-7 : (cls.find("radii") != std::string::npos ? 1e-4 : 1e-5); break;
-        case TOR: fn = "tor.nearest"; s.a = v[0]; s.b = v[1]; p = V(v, 2); geo.reset(new ContactGeometry::Torus(s.a, s.b)); break;
+        case TOR: fn = "tor.nearest"; s.a = v[0]; s.b = v[1]; p = V(v, 2); geo = mk(TOR, cls, s.a, s.b, 0); break;
         case BOX: fn = "box.nearest"; s.a = v[0]; s.b = v[1]; s.c = v[2]; p = V(v, 3); break;
         }
         vh::Line in = vh::I(fn); in.s(cls); for (double x : v) in.d(x); in.emit();
@@ -344,11 +400,11 @@ static void caseNearest(Kind k, const std::string& cls, const std::vector<double
 static void caseVal(Kind k, const std::string& cls, const std::vector<double>& v) {
     Sh s{k, 0, 0, 0}; Vec3 p; std::string fn; std::unique_ptr<ContactGeometry> geo;
     switch (k) {
-    case HS:  fn = "hs.val"; p = V(v, 0); geo.reset(new ContactGeometry::HalfSpace()); break;
-    case SPH: fn = "sph.val"; s.a = v[0]; p = V(v, 1); geo.reset(new ContactGeometry::Sphere(s.a)); break;
-    case CYL: fn = "cyl.val"; s.a = v[0]; p = V(v, 1); geo.reset(new ContactGeometry::Cylinder(s.a)); break;
-    case ELL: fn = "ell.val"; s.a = v[0]; s.b = v[1]; s.c = v[2]; p = V(v, 3); geo.reset(new ContactGeometry::Ellipsoid(Vec3(s.a, s.b, s.c))); break;
-    case TOR: fn = "tor.val"; s.a = v[0]; s.b = v[1]; p = V(v, 2); geo.reset(new ContactGeometry::Torus(s.a, s.b)); break;
+    case HS:  fn = "hs.val"; p = V(v, 0); geo = mk(HS, cls, 0, 0, 0); break;
+    case SPH: fn = "sph.val"; s.a = v[0]; p = V(v, 1); geo = mk(SPH, cls, s.a, 0, 0); break;
+    case CYL: fn = "cyl.val"; s.a = v[0]; p = V(v, 1); geo = mk(CYL, cls, s.a, 0, 0); break;
+    case ELL: fn = "ell.val"; s.a = v[0]; s.b = v[1]; s.c = v[2]; p = V(v, 3); geo = mk(ELL, cls, s.a, s.b, s.c); break;
+    case TOR: fn = "tor.val"; s.a = v[0]; s.b = v[1]; p = V(v, 2); geo = mk(TOR, cls, s.a, s.b, 0); break;
     default: return;
     }
     vh::Line in = vh::I(fn); in.s(cls); for (double x : v) in.d(x); in.emit();
@@ -363,10 +419,10 @@ static void caseVal(Kind k, const std::string& cls, const std::vector<double>& v
 static void caseRay(Kind k, const std::string& cls, const std::vector<double>& v) {
     Sh s{k, 0, 0, 0}; Vec3 o, dv; std::string fn; std::unique_ptr<ContactGeometry> geo;
     switch (k) {
-    case HS:  fn = "hs.ray"; o = V(v, 0); dv = V(v, 3); geo.reset(new ContactGeometry::HalfSpace()); break;
-    case SPH: fn = "sph.ray"; s.a = v[0]; o = V(v, 1); dv = V(v, 4); geo.reset(new ContactGeometry::Sphere(s.a)); break;
-    case CYL: fn = "cyl.ray"; s.a = v[0]; o = V(v, 1); dv = V(v, 4); geo.reset(new ContactGeometry::Cylinder(s.a)); break;
-    case ELL: fn = "ell.ray"; s.a = v[0]; s.b = v[1]; s.c = v[2]; o = V(v, 3); dv = V(v, 6); geo.reset(new ContactGeometry::Ellipsoid(Vec3(s.a, s.b, s.c))); break;
+    case HS:  fn = "hs.ray"; o = V(v, 0); dv = V(v, 3); geo = mk(HS, cls, 0, 0, 0); break;
+    case SPH: fn = "sph.ray"; s.a = v[0]; o = V(v, 1); dv = V(v, 4); geo = mk(SPH, cls, s.a, 0, 0); break;
+    case CYL: fn = "cyl.ray"; s.a = v[0]; o = V(v, 1); dv = V(v, 4); geo = mk(CYL, cls, s.a, 0, 0); break;
+    case ELL: fn = "ell.ray"; s.a = v[0]; s.b = v[1]; s.c = v[2]; o = V(v, 3); dv = V(v, 6); geo = mk(ELL, cls, s.a, s.b, s.c); break;
     default: return;
     }
     UnitVec3 d(dv, true);   // the record carries the already normalised direction
@@ -382,9 +438,9 @@ static void caseRay(Kind k, const std::string& cls, const std::vector<double>& v
 static void caseSupport(Kind k, const std::string& cls, const std::vector<double>& v) {
     Sh s{k, 0, 0, 0}; Vec3 dv; std::string fn; std::unique_ptr<ContactGeometry> geo;
     switch (k) {
-    case SPH: fn = "sph.support"; s.a = v[0]; dv = V(v, 1); geo.reset(new ContactGeometry::Sphere(s.a)); break;
-    case ELL: fn = "ell.support"; s.a = v[0]; s.b = v[1]; s.c = v[2]; dv = V(v, 3); geo.reset(new ContactGeometry::Ellipsoid(Vec3(s.a, s.b, s.c))); break;
-    case BOX: fn = "box.support"; s.a = v[0]; s.b = v[1]; s.c = v[2]; dv = V(v, 3); geo.reset(new ContactGeometry::Brick(Vec3(s.a, s.b, s.c))); break;
+    case SPH: fn = "sph.support"; s.a = v[0]; dv = V(v, 1); geo = mk(SPH, cls, s.a, 0, 0); break;
+    case ELL: fn = "ell.support"; s.a = v[0]; s.b = v[1]; s.c = v[2]; dv = V(v, 3); geo = mk(ELL, cls, s.a, s.b, s.c); break;
+    case BOX: fn = "box.support"; s.a = v[0]; s.b = v[1]; s.c = v[2]; dv = V(v, 3); geo = mk(BOX, cls, s.a, s.b, s.c); break;
     default: return;
     }
     UnitVec3 d(dv, true);
@@ -397,10 +453,10 @@ static void caseSupport(Kind k, const std::string& cls, const std::vector<double
 static void caseBound(Kind k, const std::string& cls, const std::vector<double>& v) {
     Sh s{k, 0, 0, 0}; std::string fn; std::unique_ptr<ContactGeometry> geo;
     switch (k) {
-    case SPH: fn = "sph.bound"; s.a = v[0]; geo.reset(new ContactGeometry::Sphere(s.a)); break;
-    case ELL: fn = "ell.bound"; s.a = v[0]; s.b = v[1]; s.c = v[2]; geo.reset(new ContactGeometry::Ellipsoid(Vec3(s.a, s.b, s.c))); break;
-    case TOR: fn = "tor.bound"; s.a = v[0]; s.b = v[1]; geo.reset(new ContactGeometry::Torus(s.a, s.b)); break;
-    case BOX: fn = "box.bound"; s.a = v[0]; s.b = v[1]; s.c = v[2]; geo.reset(new ContactGeometry::Brick(Vec3(s.a, s.b, s.c))); break;
+    case SPH: fn = "sph.bound"; s.a = v[0]; geo = mk(SPH, cls, s.a, 0, 0); break;
+    case ELL: fn = "ell.bound"; s.a = v[0]; s.b = v[1]; s.c = v[2]; geo = mk(ELL, cls, s.a, s.b, s.c); break;
+    case TOR: fn = "tor.bound"; s.a = v[0]; s.b = v[1]; geo = mk(TOR, cls, s.a, s.b, 0); break;
+    case BOX: fn = "box.bound"; s.a = v[0]; s.b = v[1]; s.c = v[2]; geo = mk(BOX, cls, s.a, s.b, s.c); break;
     default: return;
     }
     vh::Line in = vh::I(fn); in.s(cls); for (double x : v) in.d(x); in.emit();
@@ -414,10 +470,10 @@ static void caseBound(Kind k, const std::string& cls, const std::vector<double>&
 static void caseCurv(Kind k, const std::string& cls, const std::vector<double>& v) {
     Sh s{k, 0, 0, 0}; Vec3 p, dv; std::string fn; std::unique_ptr<ContactGeometry> geo;
     switch (k) {
-    case SPH: fn = "sph.curv"; s.a = v[0]; p = V(v, 1); dv = V(v, 4); geo.reset(new ContactGeometry::Sphere(s.a)); break;
-    case CYL: fn = "cyl.curv"; s.a = v[0]; p = V(v, 1); dv = V(v, 4); geo.reset(new ContactGeometry::Cylinder(s.a)); break;
-    case ELL: fn = "ell.curv"; s.a = v[0]; s.b = v[1]; s.c = v[2]; p = V(v, 3); dv = V(v, 6); geo.reset(new ContactGeometry::Ellipsoid(Vec3(s.a, s.b, s.c))); break;
-    case TOR: fn = "tor.curv"; s.a = v[0]; s.b = v[1]; p = V(v, 2); dv = V(v, 5); geo.reset(new ContactGeometry::Torus(s.a, s.b)); break;
+    case SPH: fn = "sph.curv"; s.a = v[0]; p = V(v, 1); dv = V(v, 4); geo = mk(SPH, cls, s.a, 0, 0); break;
+    case CYL: fn = "cyl.curv"; s.a = v[0]; p = V(v, 1); dv = V(v, 4); geo = mk(CYL, cls, s.a, 0, 0); break;
+    case ELL: fn = "ell.curv"; s.a = v[0]; s.b = v[1]; s.c = v[2]; p = V(v, 3); dv = V(v, 6); geo = mk(ELL, cls, s.a, s.b, s.c); break;
+    case TOR: fn = "tor.curv"; s.a = v[0]; s.b = v[1]; p = V(v, 2); dv = V(v, 5); geo = mk(TOR, cls, s.a, s.b, 0); break;
     default: return;
     }
     UnitVec3 d(dv, true);
@@ -430,7 +486,8 @@ static void caseCurv(Kind k, const std::string& cls, const std::vector<double>& 
 // ---- ellipsoid helpers findPointInSameDirection / findUnitNormalAtPoint
 static void caseEllDir(const std::string& cls, const std::vector<double>& v) {
     Sh s{ELL, v[0], v[1], v[2]}; Vec3 q = V(v, 3);
-    ContactGeometry::Ellipsoid e(Vec3(s.a, s.b, s.c));
+    ContactGeometry::Ellipsoid e(mutatedCls(cls) ? Vec3(1.37 * s.a + 0.21, 0.61 * s.b + 0.33, 1.83 * s.c + 0.12) : Vec3(s.a, s.b, s.c));
+    if (mutatedCls(cls)) { warmUp(e); e.setRadii(Vec3(s.a, s.b, s.c)); }
     vh::Line in = vh::I("ell.dir"); in.s(cls); for (double x : v) in.d(x); in.emit();
     Vec3 pd = e.findPointInSameDirection(q); UnitVec3 n = e.findUnitNormalAtPoint(q);
     vh::Line o = vh::O("ell.dir"); v3(o, pd); v3(o, Vec3(n)).emit();
@@ -719,6 +776,16 @@ static void degenerate(vh::Rng& g, long n) {
         caseSupport(BOX, "axis_direction", {h[0], h[1], h[2], 0, 1, 0});
         caseSupport(SPH, "axis_direction", {r, 0, 0, -1});
         // ---- height map on the boundary of its domain
+        // ---- mutated objects: every type with a setter, the same query kinds under class "after_setter" + equality with a fresh object
+        { Vec3 q = rndVec(g, 0.3, 2.5), oo = rndVec(g, 1.5, 4), dd = Vec3(UnitVec3(-oo + rndVec(g, 0.05, 0.5)));
+          caseNearest(SPH, "after_setter", cat({r}, q)); caseVal(SPH, "after_setter", cat({r}, q)); caseRay(SPH, "after_setter", cat(cat({r}, oo), dd)); caseBound(SPH, "after_setter", {r}); caseSupport(SPH, "after_setter", cat({r}, dd));
+          caseNearest(CYL, "after_setter", cat({r}, q)); caseVal(CYL, "after_setter", cat({r}, q)); caseRay(CYL, "after_setter", cat(cat({r}, oo), dd));
+          caseNearest(ELL, "after_setter", cat({a[0], a[1], a[2]}, q)); caseVal(ELL, "after_setter", cat({a[0], a[1], a[2]}, q)); caseRay(ELL, "after_setter", cat(cat({a[0], a[1], a[2]}, oo), dd));
+          caseBound(ELL, "after_setter", {a[0], a[1], a[2]}); caseSupport(ELL, "after_setter", cat({a[0], a[1], a[2]}, dd)); caseEllDir("after_setter", cat({a[0], a[1], a[2]}, q));
+          caseNearest(TOR, "after_setter", {R, tr, R + 1.7 * tr, 0.3, 0.4}); caseVal(TOR, "after_setter", cat({R, tr}, q)); caseBound(TOR, "after_setter", {R, tr});
+          caseSupport(BOX, "after_setter", cat({h[0], h[1], h[2]}, dd)); caseBound(BOX, "after_setter", {h[0], h[1], h[2]});
+          for (Kind k : {SPH, CYL, ELL, TOR, BOX}) { std::vector<double> par = k == SPH || k == CYL ? std::vector<double>{r, 0, 0} : k == ELL ? std::vector<double>{a[0], a[1], a[2]} : k == TOR ? std::vector<double>{R, tr, 0} : std::vector<double>{h[0], h[1], h[2]};
+              caseSetter(k, "after_setter", cat(cat(cat(par, q), oo), dd)); } }
         // ---- queries that fail for every input (unimplemented or partially implemented): one witness each
         caseNearest(TOR, "any_input", {R, tr, R + 2 * tr, 0.3, 0.2});
         std::vector<double> hv; for (int i = 0; i < 36; ++i) hv.push_back(g.range(-0.5, 0.5));
@@ -741,6 +808,7 @@ static void replay() {
         if (fn == "consts") caseConsts();
         else if (fn == "p.hmap") caseHeightMap(cls, v);
         else if (fn == "p.brick") caseBrickStub(cls, v);
+        else if (fn.rfind("p.setter.", 0) == 0) { static const char* nm[] = {"HalfSpace", "Sphere", "Cylinder", "Ellipsoid", "Torus", "Brick"}; for (int k = 0; k < 6; ++k) if (fn == std::string("p.setter.") + nm[k]) caseSetter((Kind)k, cls, v); }
         else if (fn == "ell.dir") caseEllDir(cls, v);
         else if (op == "nearest") caseNearest(kindOf(fn), cls, v);
         else if (op == "val") caseVal(kindOf(fn), cls, v);
